@@ -248,6 +248,10 @@ func builtinJSONStringifyWalk(ctx builtinJSONStringifyContext, key string, holde
 					panic(ctx.call.runtime.panicTypeError("Converting circular structure to JSON"))
 				}
 			}
+			// Each level of nesting is a level of Go recursion: honour the stack depth limit.
+			if limit := ctx.call.runtime.stackLimit; limit != 0 && len(ctx.stack) >= limit {
+				panic(ctx.call.runtime.panicRangeError("Maximum call stack size exceeded"))
+			}
 			ctx.stack = append(ctx.stack, value)
 			defer func() { ctx.stack = ctx.stack[:len(ctx.stack)-1] }()
 		}
